@@ -862,7 +862,13 @@ Definition field_value (v : bytes) : fval :=
   match v with
   | [] => VEmpty
   | c :: _ =>
-    if c =? DQ then VStr (unescape_string_field (removelast (tl v)))
+    if c =? DQ then
+      (* StringValue(): valueBuf[1:len-1] — QUIRK: PANICS (slice bounds [1:0]) when the value
+         is a lone double quote; rendered as VErr 3 *)
+      match tl v with
+      | [] => VErr 3
+      | _ => VStr (unescape_string_field (removelast (tl v)))
+      end
     else if num_type_start c then
       let lastc := last v 0 in
       if lastc =? 105 then match parse_int64 (removelast v) with Some z => VInt z | None => VErr 0 end
